@@ -61,18 +61,23 @@ func (e *skipConcEngine) report(t *sched.Thread, ev sched.Event, err error) stri
 }
 
 func (e *skipConcEngine) step(toks []string) string {
-	if toks[0] == "threads" && len(toks) == 2 {
+	if toks[0] == "threads" && (len(toks) == 2 || (len(toks) == 3 && (toks[2] == "mem=go" || toks[2] == "mem=mm"))) {
 		n, ok := atoi(toks[1])
 		if !ok || n < 1 || n > 64 || e.ctl != nil {
 			return "bad-op"
 		}
-		e.alloc = guardalloc.New(false)
-		cfg := skiplist.DefaultConfig()
-		cfg.UseMemoryMgmt = true
-		cfg.Malloc = e.alloc.Malloc
-		cfg.Free = e.alloc.Free
-		cfg.BarrierDestructor = func(unsafe.Pointer) {}
-		e.s = skiplist.NewWithConfig(cfg)
+		if len(toks) == 3 && toks[2] == "mem=go" {
+			// Go-managed memory: no access barrier, iterators carry no session (the list operations are the same)
+			e.s = skiplist.New()
+		} else {
+			e.alloc = guardalloc.New(false)
+			cfg := skiplist.DefaultConfig()
+			cfg.UseMemoryMgmt = true
+			cfg.Malloc = e.alloc.Malloc
+			cfg.Free = e.alloc.Free
+			cfg.BarrierDestructor = func(unsafe.Pointer) {}
+			e.s = skiplist.NewWithConfig(cfg)
+		}
 		e.ctl = sched.NewController()
 		sp := uintptr(unsafe.Pointer(e.s))
 		e.ctl.Steer = func(point int, obj uintptr) bool { return obj == sp && point >= 20 }
